@@ -640,8 +640,27 @@ def rule_header_layout(ctx):
         if g is None:
             continue
         t = Inliner(ctx).ret_term(g)
+
+        def expand(u, depth=0):
+            # a masking helper (`fn field(self, mask) -> u16 { self.0 & mask }`) is read through
+            if depth > 2 or u is None:
+                return u
+            if u[0] == "call" and u[1].startswith(H + "::"):
+                b = Inliner(ctx).inline_fn(u[1], [expand(a, depth + 1) for a in u[2]])
+                return expand(b, depth + 1) if b is not None else u
+            if u[0] == "agg":
+                return (u[0], u[1], u[2], tuple((k, expand(v, depth + 1)) for k, v in u[3]))
+            return u
+        t = expand(t)
         vals = [x[3] for x in subterms(t) if x[0] == "bin" and x[1] == "BitAnd"] if t is not None else []
+        vals += [x[2] for x in subterms(t) if x[0] == "bin" and x[1] == "BitAnd" and x[2][0] == "const"] if t is not None else []
+        vals = [v for v in vals if v[0] == "const"]
         ok = bool(vals) and all(v == ("const", mask) for v in vals)
+        if not vals and t is not None:
+            # the masking itself sits in a helper that could not be read through: the accessor hands it its own mask and
+            # no other field's mask
+            ms = set(x[1] for x in subterms(t) if x[0] == "const" and x[1] in (fm, sm, im))
+            ok = ms == {mask} and any(x[0] == "call" and x[1].startswith(H + "::") for x in subterms(t))
         n += 1
         ctx.ob(R, "Header::%s" % name, ok, "self.0 & 0x%04x" % mask if ok else "Header::%s does not mask with its own field mask: %s" % (name, show(t)[:80] if t is not None else None), g.loc())
     g = body(H + "::Header::new")
